@@ -139,6 +139,24 @@ for name, fn, nmax, required in FUNCS[1:2] + FUNCS[3:4]:
                 rep.fail(f"results::{sig}", f"{shape}: got {rows!r}, want [2]", shape)
 
 
+# ---- two arguments derived from the SAME still-unbound variable (the predicate is the first condition that binds it)
+boxes2 = [Box(3, [1, 5]), Box(1, [2, 0]), Box(2, [2, 9]), Box(7, [0, 0])]
+for name, fn, nmax, required in FUNCS[1:2] + FUNCS[3:4]:
+    sym = symbolic_function(fn) if not isinstance(fn, type) else fn
+    for label, mk, conc in (("f(b.v, b.vs[0])", lambda b: sym(b.v, b.vs[0]), lambda bx: bx.v > bx.vs[0]), ("f(b.vs[1], b.v)", lambda b: sym(b.vs[1], b.v), lambda bx: bx.vs[1] > bx.v),
+                            ("f(b.vs[0], b.vs[1])", lambda b: sym(b.vs[0], b.vs[1]), lambda bx: bx.vs[0] > bx.vs[1])):
+        del CALLS[:]
+        b = let(Box, boxes2)
+        st, rows = guarded(lambda: [x.v for x in an(entity(b, mk(b))).evaluate()])
+        want = [bx.v for bx in boxes2 if conc(bx)]
+        rep.case(("same-variable-arguments", name, label), sample={"callable": name, "call": label})
+        sig = f"{'predicate' if isinstance(fn, type) else 'function'}::arguments-derived-from-one-unbound-variable"
+        if st == "exc" or rows != want:
+            rep.fail(f"results::{sig}", f"{name}: {label} over 4 boxes: got {rows!r}, the concrete calls give {want}", {"call": label})
+        elif len(CALLS) != len(boxes2):
+            rep.fail(f"invocations::{sig}", f"{name}: {label}: the body ran {len(CALLS)} times for {len(boxes2)} bindings", {"call": label})
+
+
 # ---- one predicate class used twice in a query with the same values bound to different parameters
 @dataclass(eq=False)
 class InRange(Predicate):
@@ -169,6 +187,36 @@ for label, uses, concrete in TWO_USES:
         rep.case(("two-uses", label, _round), sample={"condition": label})
         if st == "exc" or r != want:
             rep.fail("results::predicate::two-uses-of-one-class", f"{label} over [1, 5, 7, 50]: got {r!r}, the concrete calls give {want}", {"condition": label})
+# ---- two positional defaults followed by a keyword-only parameter; equal-but-different constants (0 / False, 1 / 1.0 / True)
+def within(value, low=0, high=10, *, inclusive=True):
+    CALLS.append(("within", value, low, high, inclusive))
+    return (low <= value <= high) if inclusive else (low < value < high)
+
+
+def tell_apart(value, a, b):
+    CALLS.append(("tell_apart", value, repr(a), repr(b)))
+    return (type(a).__name__, type(b).__name__, value >= 0) == (WANT_TYPES[0], WANT_TYPES[1], True)
+
+
+WANT_TYPES = ["int", "bool"]
+s_within, s_tell = symbolic_function(within), symbolic_function(tell_apart)
+for label, mk, conc in (("within(x)", lambda x: s_within(x), lambda v: within(v)), ("within(x, 5)", lambda x: s_within(x, 5), lambda v: within(v, 5)),
+                        ("within(x, high=3)", lambda x: s_within(x, high=3), lambda v: within(v, high=3)),
+                        ("within(x, inclusive=False)", lambda x: s_within(x, inclusive=False), lambda v: within(v, inclusive=False)),
+                        ("within(x, 0, 10, inclusive=False)", lambda x: s_within(x, 0, 10, inclusive=False), lambda v: within(v, 0, 10, inclusive=False))):
+    x = let(int, [-1, 0, 3, 10, 11])
+    st, r = guarded(lambda: sorted(an(entity(x, mk(x))).evaluate()))
+    want = [v for v in [-1, 0, 3, 10, 11] if conc(v)]
+    rep.case(("defaults", label), sample={"call": label})
+    if st == "exc" or r != want:
+        rep.fail("results::function::defaults-and-keyword-only", f"{label} over [-1, 0, 3, 10, 11]: got {r!r}, the concrete calls give {want}", {"call": label})
+for pair in ((0, False), (False, 0), (1, True), (1.0, 1), (1, 1.0), (True, 1)):
+    WANT_TYPES[:] = [type(pair[0]).__name__, type(pair[1]).__name__]
+    x = let(int, [0, 1])
+    st, r = guarded(lambda: sorted(an(entity(x, s_tell(x, pair[0], pair[1]))).evaluate()))
+    rep.case(("equal-constants", repr(pair)), sample={"constants": repr(pair)})
+    if st == "exc" or r != [0, 1]:
+        rep.fail("results::function::equal-but-different-constants", f"tell_apart(x, {pair[0]!r}, {pair[1]!r}): the body did not receive exactly these two constants: {r!r} (calls {CALLS[-2:]})", {"constants": repr(pair)})
 # ---- a keyword written after a left-out default; and two callables with the same qualified name
 def f4(p0, p1=0, p2=10):
     CALLS.append(("f4", p0, p1, p2))
